@@ -92,6 +92,67 @@ def main():
                 print(json.dumps({"reproduced": True, "tried": tried, "detail": f"Resampler.run({scheme!r}) on a history with batch sizes {sizes}: {err}",
                                   "input": {"batch_sizes": list(sizes), "scheme": scheme, "u0": u0}}))
                 return
+    # long pools (more than 2**16 stored particles, reached after many iterations) with the extreme offsets, weights whose running sum
+    # ends below / above 1 by rounding: every drawn index is a valid index, n particles are stored
+    r6 = np.random.RandomState(8)
+    for N, n in ((70001, 64), (131072, 1000), (66000, 66000)):
+        st0 = state(N)
+        uh = st0.get_history("u", flat=True)
+        for k in range(3):
+            w = r6.dirichlet(np.ones(N)) if k < 2 else np.full(N, 1.0 / N)
+            for scheme in ("syst", "mult"):
+                for u0 in (top, 1 - 1e-12, 0.0):
+                    st = StateManager.from_dict(st0.to_dict())
+                    st.set_current("beta", 0.5)
+                    np.random.random = lambda *a, **kk: (np.full(a[0], u0) if a else u0)
+                    np.random.rand = lambda *a: (np.full(a, u0) if a else u0)
+                    tried += 1
+                    try:
+                        Resampler(st, n, scheme, None, False, False).run(w.copy())
+                        u = st.get_current("u")
+                        err = None if len(u) == n else f"{len(u)} particles stored, expected {n}"
+                    except Exception as e:
+                        err = f"{type(e).__name__}: {e}"
+                    finally:
+                        np.random.random, np.random.rand = o_random, o_rand
+                    if err:
+                        print(json.dumps({"reproduced": True, "tried": tried, "detail": f"Resampler.run({scheme!r}) on a pool of {N} particles (cumsum ends at "
+                                          f"{np.cumsum(w)[-1]!r}), uniform draw {u0!r}: {err}", "input": {"pool": N, "n": n, "scheme": scheme, "u0": u0, "weights_seed": 8, "k": k}}))
+                        return
+    # one Resampler / StateManager pair whose history is replaced (update_from_dict) by another history of the same layout and at
+    # least as many iterations: the particles stored by the next run() are particles of the history stored now
+    for scheme in ("syst", "mult"):
+        for n_a, n_b in ((3, 3), (3, 5)):
+            r7 = np.random.RandomState(12)
+            def hist(T, off):
+                st = StateManager(2)
+                for t in range(T):
+                    uu = r7.uniform(0, 1, (6, 2))
+                    st.update_current({"u": uu, "x": uu * 2 + off, "logl": -uu.sum(axis=1) - off, "beta": 0.1 * t, "logz": 0.0, "iter": t, "calls": 0,
+                                       "assignments": np.zeros(6, dtype=int)})
+                    st.commit_current_to_history()
+                st.set_current("beta", 0.1 * T)
+                return st
+            st, other = hist(n_a, 0.0), hist(n_b, 100.0)
+            rs = Resampler(st, 6, scheme, None, False, False)
+            tried += 1
+            err = None
+            try:
+                rs.run(np.full(6 * n_a, 1.0 / (6 * n_a)))
+                st.update_from_dict(other.to_dict())
+                w = r7.dirichlet(np.ones(6 * n_b))
+                rs.run(w.copy())
+                u, x, ll_ = st.get_current("u"), st.get_current("x"), st.get_current("logl")
+                uh = np.concatenate([np.asarray(a) for a in other._history["u"]])
+                idx = np.array([int(np.argmin(np.abs(uh - row).sum(axis=1))) for row in u])
+                if len(u) != 6 or not (np.allclose(u, uh[idx]) and np.allclose(x, 2 * uh[idx] + 100.0) and np.allclose(ll_, -uh[idx].sum(axis=1) - 100.0)):
+                    err = "the particles stored by run() are not particles of the history stored now (rows of the replaced history survive)"
+            except Exception as e:
+                err = f"{type(e).__name__}: {e}"
+            if err:
+                print(json.dumps({"reproduced": True, "tried": tried, "detail": f"Resampler.run({scheme!r}) after the state's history was replaced through update_from_dict "
+                                  f"({n_a} -> {n_b} iterations of 6 particles): {err}", "input": {"scheme": scheme, "iterations": [n_a, n_b]}}))
+                return
     # posterior(resample=True) at the extreme offsets (history whose normalised weights have a cumulative sum ending below 1)
     import tempest, tempfile, os, shutil
     tmpd = tempfile.mkdtemp(prefix="c06_")
